@@ -8,7 +8,7 @@ The compiler tracks, for the statements of an SQL script -- and for the single s
 the savepoints declared after it and keeps `a`.  The loop in apply() looked at the NEWEST savepoint (`self.savepoints[-1]`) but, when that was not the one asked for,
 removed the OLDEST (`self.savepoints.pop(0)`): with savepoints [a, b], ROLLBACK TO SAVEPOINT a removed a, then b, and raised `savepoint "a" does not exist`.
 Runs the SQL-settings part of the C09 explorer (contracts/C09/scenario.py sql_settings): the REAL SQLTransactionState.apply on every history of <= 5
-SET / SAVEPOINT / ROLLBACK TO statements over two savepoint names against a reference stack.
+SET / SAVEPOINT / ROLLBACK TO statements over two savepoint names against a reference model.
 exit 0: all histories agree; exit 1: the first history that does not (printed).
 """
 import sys, os
